@@ -28,6 +28,7 @@ def showHostOp : HostOp → String
   | .symlink t p => s!"symlink {hex t} {hex p}"
   | .readlink p n => s!"readlink {hex p} {n}"
   | .stat p => s!"stat {hex p}"
+  | .lstat p => s!"lstat {hex p}"
 
 def showPathResult : Out PathResult → String
   | .val r => match r.trace with
